@@ -184,8 +184,8 @@ func checkC16(r *mon.Run) {
 			ext = len(sd.EContent.Content)
 		}
 		r.Distinct(fmt.Sprintf("%s|%s|%s", s.Producer, lenClass(ext), cl))
-		if i%17 == 0 {
-			r.Sample(map[string]any{"blob": s.Name, "producer": s.Producer, "bytes": len(s.Blob), "attributes": len(sd.Signers[0].Attrs), "attached": s.Attached})
+		if i%17 == 0 || i < 3 {
+			r.SampleIfFew(6, map[string]any{"blob": s.Name, "producer": s.Producer, "bytes": len(s.Blob), "attributes": len(sd.Signers[0].Attrs), "attached": s.Attached})
 		}
 	})
 	r.Floor("producer_sanity_ok", int64(r.N(70, 2000)*8/10))
